@@ -68,13 +68,17 @@ def snapshot(self):
     try:
         level = self.resolution_counter
         fragment_dict = self.fragment_dicts[level]
-        all_atom = (level == self.resolutions - 1 and self.last_all_atom)
+        # what the CALLER asked for decides how the result is judged (a resolver that loses a keyword on the way
+        # must not be judged by its own, wrong, idea of it); without a harness-side record the resolver's state is used
+        want_aa = CONTEXT.get('requested_last_all_atom')
+        want_legacy = CONTEXT.get('requested_legacy')
+        all_atom = (level == self.resolutions - 1 and (self.last_all_atom if want_aa is None else want_aa))
         base = self.molecule
         names = {}
         for n in base.nodes:
             # the name under which the fragment is looked up: atom names of the previous level
             names[n] = base.nodes[n].get('atomname', base.nodes[n].get('fragname')) if level > 0 else base.nodes[n].get('fragname')
-        return dict(level=level, all_atom=all_atom, legacy=self.legacy, fragment_dict=fragment_dict,
+        return dict(level=level, all_atom=all_atom, legacy=(self.legacy if want_legacy is None else want_legacy), fragment_dict=fragment_dict,
                     templates={k: snap_graph(g) for k, g in fragment_dict.items()},
                     base_edges={frozenset((a, b)): d.get('order', 1) for a, b, d in base.edges(data=True)},
                     base_nodes=list(base.nodes), base_names=names, base_obj=base)
